@@ -248,3 +248,5 @@ Theorem c11_src_rating_monotone_cert : forall name cat hs hs' cs cs', rsa_cert_t
   0 < hs -> hs <= hs' -> 0 < cs -> cs <= cs' ->
   severity (src_hostkey_notes name true hs' cat cs') <= severity (src_hostkey_notes name true hs cat cs).
 Proof. exact src_rating_monotone_cert. Qed.
+Theorem c11_tie_extract_ok_hostkey_probe_constants : extract_ok_hostkey_probe_constants = true.
+Proof. exact tie_extract_ok_hostkey_probe_constants. Qed.
